@@ -6,6 +6,8 @@ Lines
                                     carry the *structure the wire form was rendered from* (plain-Python renderer
                                     below), i.e. what the property says the parser must return
   us <url> / qsl <qs> / int <b> / uq <b>   the modelled CPython built-ins called directly (model validation)
+  gp <data> / gpw <data> …          the same call answered by the definition TRANSLATED from the source of parse_raw_http
+                                    (Gen/PyC2U.lean, tools/py2leanu.py): every p / pw case is also a g-* case
 """
 from __future__ import annotations
 
@@ -16,10 +18,14 @@ import urllib.parse
 from dissect.cobaltstrike import c2
 
 from . import common as C
+from . import pyuval
 
 ID = "C16"
 DRIVER = "drv_c16"
 GEN = ["c16_unicode"]
+GEN += ["py_utils", "py_c2u"]
+EXTRA_PROP_FILES = ["Props/C16Gen.lean"]
+G_STREAMS = ("msg", "malformed", "status", "uri", "netloc", "param-nonascii")
 STREAMS = {
     "msg": {"relevant": True, "desc": "structured requests/responses rendered by the harness (expected parts attached), mutated variants"},
     "malformed": {"relevant": True, "desc": "start lines with 0-5 tokens, tabs, bare CR/LF, empty input, HTTP/ prefix with != 3 parts"},
@@ -31,6 +37,15 @@ STREAMS = {
     "qsl": {"relevant": False, "desc": "parse_qsl(str, encoding='latin-1') re-encoded as latin-1 (the call of the repaired code) vs model"},
     "int": {"relevant": False, "desc": "int(bytes.decode()) vs model (incl. surrounding whitespace, unreachable through split())"},
     "uq": {"relevant": False, "desc": "urllib.parse.unquote_to_bytes vs model"},
+    "g-msg": {"relevant": False, "desc": "parse_raw_http TRANSLATED from its source (Gen/PyC2U.lean; urlsplit / parse_qsl = the sub-models) vs the function, on every case of msg"},
+    "g-malformed": {"relevant": False, "desc": "translated parse_raw_http vs the function on every case of malformed"},
+    "g-status": {"relevant": False, "desc": "translated parse_raw_http vs the function on every case of status"},
+    "g-uri": {"relevant": False, "desc": "translated parse_raw_http vs the function on every case of uri"},
+    "g-netloc": {"relevant": False, "desc": "translated parse_raw_http vs the function on every case of netloc"},
+    "g-param-nonascii": {"relevant": False, "desc": "translated parse_raw_http vs the function on every case of param-nonascii"},
+    "pyu": {"relevant": False, "desc": "the operations of the translator's run-time library added for c2.py (PyU.lean: split / upper / lower / startswith, "
+            "codecs, int(), repr, item assignment, insert, [::-1], isinstance, _replace, attribute access, NamedTuple instances as tuples) "
+            "vs CPython on random operands of all kinds"},
 }
 TRUSTED = [
     "tools/harness/c16.py generators, plain-Python renderer and oracle; line protocol parsing in lean/CsVerif/Driver/C16.lean",
@@ -38,6 +53,10 @@ TRUSTED = [
     "CPython 3.12.1 built-ins are modelled (Model/C16.lean), not verified: bytes.partition/split/rstrip/upper, UTF-8 and ASCII-ignore "
     "decoding, int(str), urllib.parse.urlsplit on bytes, parse_qsl/unquote on str with encoding latin-1, ipaddress.ip_address validity, dict; each is exercised "
     "by a dedicated stream (status/int, uri/netloc/us, qsl/uq)",
+    "tools/py2leanu.py + lean/CsVerif/Model/PyU.lean (untyped source-to-Lean translation of parse_raw_http; Props/C16Gen.lean proves the "
+    "translated definition equal to the hand-written model with urlsplit / parse_qsl instantiated by the sub-models; the g-* streams run "
+    "the translated definition against the real function on every parse_raw_http case, the pyu stream runs the PyU operations added for "
+    "c2.py against CPython on random operands)",
 ]
 ASSUMPTIONS = [
     "urllib.parse / ipaddress behave as in CPython 3.12.1 (the interpreter in /venv); later CPython versions add netloc checks",
@@ -287,6 +306,18 @@ def gen_ipv6ish(rng) -> bytes:
 
 
 def gen(tier, rng, shard, nshards):
+    """every case that calls parse_raw_http is also run through the definition translated from its source"""
+    for stream, line in gen0(tier, rng, shard, nshards):
+        yield stream, line
+        if stream in G_STREAMS and line.split(" ", 1)[0] in ("p", "pw"):
+            yield "g-" + stream, "g" + line
+    for _ in range((150000 if tier == "thorough" else 15000) // nshards):
+        line = pyuval.case(rng)
+        if line is not None:
+            yield "pyu", line
+
+
+def gen0(tier, rng, shard, nshards):
     thorough = tier == "thorough"
     k = 0
 
@@ -500,6 +531,10 @@ def gen(tier, rng, shard, nshards):
 # --------------------------------------------------------------------------------------------
 
 def impl(stream, line):
+    if stream.startswith("g-"):
+        return impl(stream[2:], line[1:])       # the same real function
+    if stream == "pyu":
+        return pyuval.run(line)
     w = line.split(" ")
     op = w[0]
     if op in ("p", "pw"):
@@ -532,6 +567,8 @@ def first_line_of(data: bytes) -> bytes:
 
 
 def oracle(stream, line, out):
+    if stream.startswith("g-") or stream == "pyu":
+        return None
     w = line.split(" ")
     if w[0] not in ("p", "pw"):
         return None
@@ -551,6 +588,10 @@ def oracle(stream, line, out):
 
 
 def nontrivial(stream, line, out):
+    if stream == "pyu":
+        return not out.startswith("exc ")
+    if stream.startswith("g-"):
+        return nontrivial(stream[2:], line[1:], out)
     if stream in ("malformed",):
         return out.startswith("exc ") and len(line) > 3
     if stream in ("status", "int"):
@@ -583,6 +624,12 @@ def _shorter(b: bytes):
 
 
 def shrink(stream, line):
+    if stream == "pyu":
+        return
+    if stream.startswith("g-"):
+        for cand in shrink(stream[2:], line[1:]):
+            yield "g" + cand
+        return
     w = line.split(" ")
     if w[0] != "pw":
         yield from C.shrink_tokens(line)
